@@ -1,5 +1,6 @@
 import CopVerif.Base.FloatIO
 import CopVerif.Model.GaussSample
+import CopVerif.Lemmas.GaussSampleGen
 /-!
   Driver for `Model/GaussSample.lean` (property C01).  One request line → one reply line.
 
@@ -15,6 +16,17 @@ import CopVerif.Model.GaussSample
         `np.random.multivariate_normal(zeros(d), correlation, size=n)`, `C<hex>` = a literal.
         The reply starts with `mvn d n` = the draw request made.
   * `gs kendall m x_1 y_1 … x_m y_m` → `ok conc disc tieX tieY tieXY tau` (`tau` hex or `nan`).
+
+  The same requests answered from the definitions GENERATED from the source (translation validation of
+  `tools/gen_gausscond.py` / `tools/gen_gausstransform.py` on the unconditional path, obligations `tv:GaussCond`,
+  `tv:GaussTransform` of `tools/props/c01.py`), through the glue of `Lemmas/GaussSampleGen.lean` the theorems of
+  `Props/C01b.lean` are stated with (`genFitted`, `ppfOf`):
+  * `gs genfit …`    → as `gs fit`, from `Gen.GaussTransform.fitColumns`;
+  * `gs gensample …` → as `gs sample`, from `Gen.GaussCond.sample … none` run on SYMBOLS (carrier `Sym`; the RNG
+        returns `D<k>.<i>` for as many columns as the mean it is handed has entries);
+  * `gs genargs d r <table>` → `ok <d'> mean <d' symbols> cov <d'·d' symbols> cols <d' labels>`: what
+        `Gen.GaussCond.samplerArgs … none` hands to `np.random.multivariate_normal`; entry `[i, j]` of
+        `self.correlation` is the symbol `R<i>.<j>`, `np.zeros` gives the symbol `0`.
 -/
 namespace CopVerif.Driver.GaussSampleD
 open CopVerif CopVerif.IO CopVerif.Model.GaussSample
@@ -34,6 +46,42 @@ def symExt : Ext String where
   phi := fun t => "H(" ++ t ++ ")"
   mvn := fun d n => (List.range n).map fun i => (List.range d).map fun k =>
     "D" ++ toString k ++ "." ++ toString i
+
+/-- symbolic carrier for running the GENERATED sampler: every arithmetic operation prints itself. -/
+structure Sym where
+  s : String
+
+instance : Add Sym := ⟨fun a b => ⟨"(" ++ a.s ++ "+" ++ b.s ++ ")"⟩⟩
+instance : Sub Sym := ⟨fun a b => ⟨"(" ++ a.s ++ "-" ++ b.s ++ ")"⟩⟩
+instance : Mul Sym := ⟨fun a b => ⟨"(" ++ a.s ++ "*" ++ b.s ++ ")"⟩⟩
+instance : NumFns Sym where
+  exp a := ⟨"exp(" ++ a.s ++ ")"⟩
+  log a := ⟨"log(" ++ a.s ++ ")"⟩
+  pow a b := ⟨"pow(" ++ a.s ++ "," ++ b.s ++ ")"⟩
+  sqrt a := ⟨"sqrt(" ++ a.s ++ ")"⟩
+  abs a := ⟨"abs(" ++ a.s ++ ")"⟩
+  ofNat n := ⟨toString n⟩
+  ofSci m e := ⟨toString m ++ "e-" ++ toString e⟩
+  beq a b := a.s == b.s
+  isPosInf _ := false
+  isNaN _ := false
+
+/-- the symbolic reading of the external functions for the generated code (the RNG is a parameter there). -/
+def symExtGen : Ext Sym where
+  ppf := fun j t => ⟨"P" ++ toString j ++ "(" ++ t.s ++ ")"⟩
+  phi := fun t => ⟨"H(" ++ t.s ++ ")"⟩
+  mvn := fun _ _ => []
+
+def symRng : List Sym → List (List Sym) → Nat → List (List Sym) := fun mean _ n =>
+  (List.range n).map fun i => (List.range mean.length).map fun k => ⟨"D" ++ toString k ++ "." ++ toString i⟩
+
+/-- the fitted state built by the generated `_fit_columns` (constants as `C<hex>` symbols) and the stored
+    correlation as symbols `R<i>.<j>`, labelled with the fitted columns. -/
+def genState (X : List (String × List Float)) : Fitted String Sym × Model.GaussCond.Corr String Sym :=
+  let m : Fitted String Sym := (GaussSampleGen.genFitted (fun _ => ()) X).map fun c => ⟨"C" ++ showFloat c⟩
+  let d := m.columns.length
+  (m, { labels := m.columns,
+        data := (List.range d).map fun i => (List.range d).map fun j => ⟨"R" ++ toString i ++ "." ++ toString j⟩ })
 
 def parseTable (d r : Nat) (rest : List String) : Option (List (String × List Float)) :=
   let labs := rest.take d
@@ -63,6 +111,44 @@ def gs (ws : List String) : String :=
       | some X =>
         let m : Fitted String String := (fitColumns X).map fun c => "C" ++ showFloat c
         "ok mvn " ++ toString m.columns.length ++ " " ++ toString n ++ " " ++ showFrame (sample symExt m n)
+      | none => "bad-op"
+    | _, _, _ => "bad-op"
+  | "genfit" :: d :: r :: rest =>
+    match d.toNat?, r.toNat? with
+    | some d, some r =>
+      match parseTable d r rest with
+      | some X =>
+        let m : Fitted String Float := GaussSampleGen.genFitted (fun _ => ()) X
+        "ok " ++ " ".intercalate ((m.columns.zip m.univariates).map fun p => p.1 ++ " " ++ showUni p.2)
+      | none => "bad-op"
+    | _, _ => "bad-op"
+  | "genargs" :: d :: r :: rest =>
+    match d.toNat?, r.toNat? with
+    | some d, some r =>
+      match parseTable d r rest with
+      | some X =>
+        let (_, S) := genState X
+        match Gen.GaussCond.samplerArgs id (fun a b => decide (a ≤ b)) (fun _ x => x) S none with
+        | .error e => "err " ++ toString e
+        | .ok a =>
+          "ok " ++ toString a.mean.length ++ " mean " ++ " ".intercalate (a.mean.map (·.s))
+            ++ " cov " ++ " ".intercalate (a.cov.flatten.map (·.s)) ++ " cols " ++ " ".intercalate a.columns
+      | none => "bad-op"
+    | _, _ => "bad-op"
+  | "gensample" :: n :: d :: r :: rest =>
+    match n.toNat?, d.toNat?, r.toNat? with
+    | some n, some d, some r =>
+      match parseTable d r rest with
+      | some X =>
+        let (m, S) := genState X
+        match Gen.GaussCond.samplerArgs id (fun a b => decide (a ≤ b)) (fun _ x => x) S none,
+              Gen.GaussCond.sample id (fun a b => decide (a ≤ b)) (fun _ x => x) (GaussSampleGen.ppfOf symExtGen m)
+                symExtGen.phi symRng S n none with
+        | .ok a, .ok out =>
+          "ok mvn " ++ toString a.mean.length ++ " " ++ toString n ++ " "
+            ++ showFrame (out.map fun c => (c.1, c.2.map (·.s)))
+        | .error e, _ => "err " ++ toString e
+        | _, .error e => "err " ++ toString e
       | none => "bad-op"
     | _, _, _ => "bad-op"
   | "kendall" :: m :: rest =>
